@@ -325,7 +325,9 @@ PROPS["C21"] = {
                    "operation header - the mechanisms the property names beyond the value printer are NOT decided",
     "assumptions": [],
     "harnesses": [
-        H("c21::c21_secret_scalar", crate="hm", unwind=6, cls="L", mem_gb=12, timeout_s=1200, stubs=[RS], bounds="4 scalar kinds x secret flag; letter a..z, digit 0..9, any bool"),
+        H("c21::c21_secret_string", crate="hm", unwind=6, cls="L", mem_gb=12, timeout_s=1200, stubs=[RS], bounds="String(any letter a..z) x secret flag"),
+        H("c21::c21_secret_number", crate="hm", unwind=6, cls="L", mem_gb=12, timeout_s=1200, stubs=[RS], bounds="Number(0..9) x secret flag"),
+        H("c21::c21_secret_bool_null", crate="hm", unwind=6, cls="L", mem_gb=12, timeout_s=1200, stubs=[RS], bounds="Boolean(any), Null x secret flag"),
         H("c21::c21_secret_list", crate="hm", unwind=6, cls="L", mem_gb=12, timeout_s=1200, stubs=[RS], bounds="[String(letter)] x secret flag"),
     ],
 }
